@@ -483,6 +483,109 @@ def cached_replay(sym):
     return ok
 
 
+def required_variables(sym):
+    """BinaryOperator / OR ._required_variables_from_child_(child, when_true): which variables an operator reports as REQUIRED from a
+    child row (the de-duplication of rows keys on them, Dedup.v).  The body is run by a small abstract interpreter for every
+    (child in {left, right}) x (when_true in {True, False, None}); recognised statements only:
+        if not child: child = self.left              required_vars = HashedIterable()            return required_vars
+        <local> = <expr>                              if <expr>: ... [elif ... / else ...]
+        required_vars.update(self.right._unique_variables_)                                   -> the right operand's variables are added
+        for conc in <self|self.left|self.right>._conclusion_[...]: required_vars.update(conc._unique_variables_)   (rule conclusions: ignored)
+        required_vars.update(self._parent_._required_variables_from_child_(self, <expr>))     -> what the parent is asked
+    expressions: True / False / None, locals, `child is self.left|right`, `x is None`, `x is not None`, not / and / or, conditional
+    expressions, self._parent_ (taken as present).  Result per class: {(is_left, when_true): (adds_right, parent_arg)}."""
+    D = lambda src: ast.dump(ast.parse(src).body[0])
+
+    def ev(e, env, where):
+        if isinstance(e, ast.Constant) and e.value in (True, False, None):
+            return e.value
+        if isinstance(e, ast.Name):
+            need(e.id in env, f'{where}: unknown name {e.id}')
+            return env[e.id]
+        if isinstance(e, ast.Attribute) and ast.dump(e) == ast.dump(ast.parse('self._parent_').body[0].value):
+            return True
+        if isinstance(e, ast.UnaryOp) and isinstance(e.op, ast.Not):
+            return not ev(e.operand, env, where)
+        if isinstance(e, ast.BoolOp):
+            v = None
+            for x in e.values:
+                v = ev(x, env, where)
+                if isinstance(e.op, ast.Or) and v:
+                    return v
+                if isinstance(e.op, ast.And) and not v:
+                    return v
+            return v
+        if isinstance(e, ast.IfExp):
+            return ev(e.body, env, where) if ev(e.test, env, where) else ev(e.orelse, env, where)
+        if isinstance(e, ast.Compare) and len(e.ops) == 1 and isinstance(e.ops[0], (ast.Is, ast.IsNot)):
+            l, r = e.left, e.comparators[0]
+            if isinstance(l, ast.Name) and l.id == 'child' and isinstance(r, ast.Attribute) and isinstance(r.value, ast.Name) \
+                    and r.value.id == 'self' and r.attr in ('left', 'right'):
+                res = env['child'] == r.attr
+            elif isinstance(r, ast.Constant) and r.value is None:
+                res = ev(l, env, where) is None
+            else:
+                raise Refuse(f'{where}: unrecognised comparison {ast.dump(e)}')
+            return res if isinstance(e.ops[0], ast.Is) else not res
+        raise Refuse(f'{where}: unrecognised expression {ast.dump(e)}')
+
+    upd_right = D("required_vars.update(self.right._unique_variables_)")
+    upd_conc = D("required_vars.update(conc._unique_variables_)")
+
+    def run(stmts, env, out, where):
+        for st in stmts:
+            d = ast.dump(st)
+            if d in (D("if not child:\n    child = self.left"), D("required_vars = HashedIterable()")):
+                continue
+            if d == D("return required_vars"):
+                out['returned'] = True
+                return
+            if d == upd_right:
+                out['adds_right'] = True
+                continue
+            if isinstance(st, ast.For) and isinstance(st.target, ast.Name) and st.target.id == 'conc' \
+                    and [ast.dump(x) for x in st.body] == [upd_conc] and '_conclusion_' in ast.dump(st.iter):
+                continue
+            if isinstance(st, ast.Assign) and len(st.targets) == 1 and isinstance(st.targets[0], ast.Name) \
+                    and st.targets[0].id not in ('child', 'required_vars', 'self'):
+                env[st.targets[0].id] = ev(st.value, env, where)
+                continue
+            if isinstance(st, ast.If):
+                run(st.body if ev(st.test, env, where) else st.orelse, env, out, where)
+                if out.get('returned'):
+                    return
+                continue
+            if isinstance(st, ast.Expr) and isinstance(st.value, ast.Call):
+                c = st.value
+                if ast.dump(c.func) == ast.dump(ast.parse('required_vars.update').body[0].value) and len(c.args) == 1 \
+                        and isinstance(c.args[0], ast.Call) \
+                        and ast.dump(c.args[0].func) == ast.dump(ast.parse('self._parent_._required_variables_from_child_').body[0].value):
+                    a = c.args[0]
+                    need(len(a.args) >= 1 and isinstance(a.args[0], ast.Name) and a.args[0].id == 'self', f'{where}: the parent is not asked about self')
+                    arg = a.args[1] if len(a.args) == 2 else (a.keywords[0].value if len(a.keywords) == 1 and a.keywords[0].arg == 'when_true' else None)
+                    need(arg is not None, f'{where}: unrecognised call of the parent')
+                    need('parent_arg' not in out, f'{where}: the parent is asked twice')
+                    out['parent_arg'] = ev(arg, env, where)
+                    out['asked'] = True
+                    continue
+            raise Refuse(f'{where}: unrecognised statement {d[:160]}')
+
+    res = {}
+    for cname in ('BinaryOperator', 'OR'):
+        fn = method(find(sym, ast.ClassDef, cname), '_required_variables_from_child_')
+        an = [a.arg for a in fn.args.args]
+        need(an == ['self', 'child', 'when_true'], f'{cname}._required_variables_from_child_: unexpected parameters')
+        tab = {}
+        for child in ('left', 'right'):
+            for wt in (True, False, None):
+                out = {}
+                run(body_wo_doc(fn), {'child': child, 'when_true': wt}, out, f'{cname}._required_variables_from_child_')
+                need(out.get('returned') and out.get('asked'), f'{cname}._required_variables_from_child_: a path does not ask the parent / return')
+                tab[(child == 'left', wt)] = (bool(out.get('adds_right')), out['parent_arg'])
+        res[cname] = tab
+    return res
+
+
 def rule_builders(rule):
     """rule.refinement / rule.alternative_or_next: how the new operator is wrapped around the current node and linked into the
     operator above it.  Recognised shapes only; anything else is refused."""
@@ -605,6 +708,7 @@ def emit(d):
     cr = cached_replay(sym)
     rb = rule_builders(parse(os.path.join(d, 'rule.py')))
     lz = lazy_iteration(parse(os.path.join(d, 'hashed_data.py')))
+    rq = required_variables(sym)
     o = []
     o.append("(* Generated.v — REGENERATED ON EVERY RUN by translator/eql2coq.py from /repo's current source. Do not edit. *)")
     o.append("From EQL Require Import Base Values.\n")
@@ -687,6 +791,17 @@ def emit(d):
     o.append("(* hashed_data.HashedIterable.__iter__: the lazily consumed, memoised domain (see Lazy.v) *)")
     o.append(f"Definition iter_skips_memoised : bool := {'true' if lz[0] else 'false'}.")
     o.append(f"Definition iter_memoises_before_yield : bool := {'true' if lz[1] else 'false'}.")
+    o.append("")
+    o.append("(* BinaryOperator (AND) / OR ._required_variables_from_child_(child, when_true): for the child on the left / right and")
+    o.append("   when_true = Some true / Some false / None: are the right operand's variables added, and what is the parent asked (see Dedup.v) *)")
+    ob = lambda v: 'None' if v is None else ('Some true' if v else 'Some false')
+    for cname, pre in (('BinaryOperator', 'and'), ('OR', 'or')):
+        for what, idx, ty, show in (('adds_right', 0, 'bool', lambda v: 'true' if v else 'false'), ('parent_arg', 1, 'option bool', ob)):
+            o.append(f"Definition {pre}_{what} (is_left : bool) (t : option bool) : {ty} :=\n  match is_left, t with")
+            for il in (True, False):
+                for wt in (True, False, None):
+                    o.append(f"  | {'true' if il else 'false'}, {ob(wt)} => {show(rq[cname][(il, wt)][idx])}")
+            o.append("  end.")
     return "\n".join(o) + "\n"
 
 
